@@ -126,6 +126,8 @@ def check_adv(prop, tier, replay):
     extra = {}
     if prop == "C04" and not replay:
         extra = c04_order(v, tier, wd, rng)
+        pm, pstates = pre_model(v, tier, wd, "C04", jobs, out)
+        extra.update(pm)
     if prop in ("C02", "C03") and not replay:
         extra, mstates, mtrans = online_model(v, tier, wd, jobs, out)
         extra.update({"states": mstates, "transitions": mtrans})
@@ -240,6 +242,93 @@ def online_model(v, tier, wd, jobs=None, out=None):
     return {"symbolic_online_model": {"states": states, "transitions": trans, "configs": runs,
                                       "negative_controls_failed_as_required": 4,
                                       "replayed_outcomes_compared_with_model": compared, "mismatches": f"{mismatched} mismatches"}}, states, trans
+
+
+# (a check value altered in flight no longer matches its commitment: the model's "hashcommit"; the model's "hash" -- a wrong
+# value committed consistently -- has no in-flight counterpart and is covered on the model side only)
+PRE_KIND = {"HaAND bits": "h01", "LaAND e bit": "e", "LaAND check value": "hashcommit", "LaAND commitment": "hashcommit",
+            "d-value bit": "dbit", "d-value MAC": "dmac", "Beaver d": "bd", "Beaver e": "be", "Beaver d MAC": "bdmac",
+            "Beaver e MAC": "bemac", "two LaAND check values": "hashcommit", "two LaAND e bits": "e", "two d-value bits": "dbit",
+            "two d-value MACs": "dmac", "two Beaver d": "bd", "two Beaver e": "be", "two Beaver d MACs": "bdmac",
+            "two Beaver e MACs": "bemac"}
+
+
+def pre_model(v, tier, wd, which, jobs=None, out=None):
+    """The symbolic AND-triple preprocessing (Wrk17Pre: leaky AND, bucket combination, Beaver) checked exhaustively by TLC
+    for small configurations: HonestCorrect, PassImpliesCorrect, CheatDetected, TableSound, KeySecrecy, AbortLeakExact;
+    negative controls (a check left out) must fail; the model's table deviation kind -> error is compared with what
+    the replays of the same deviation on the real code returned."""
+    q = tier == "quick"
+    # (N, C, MODE, SENUM, RESTRICT)
+    plans = {
+        "C04": [(2, 1, "laand", True, False), (2, 0, "laand", True, False), (2, 1, "beaver", False, True)]
+               + ([] if q else [(3, 0, "laand", False, False), (3, 1, "laand", False, False), (2, 0, "beaver", False, False)]),
+        "C10": [(2, 0, "laand", True, False), (2, 0, "beaver", False, True)]
+               + ([] if q else [(3, 2, "laand", False, False), (2, 1, "beaver", False, False)]),
+        "C07": [(2, 0, "laand", False, False), (2, 1, "laand", False, False)]
+               + ([] if q else [(3, 1, "laand", False, False), (2, 1, "beaver", False, True)]),
+    }
+    states = 0
+    table = None
+    runs = []
+
+    def mc(n, c, mode, senum, restrict, weak="none"):
+        cp = f"{wd}/pre-{n}-{c}-{mode}-{weak}.cfg"
+        b = lambda x: "TRUE" if x else "FALSE"
+        with open(cp, "w") as f:
+            f.write(f'SPECIFICATION Spec\nCONSTANTS\n N = {n}\n C = {c}\n MODE = "{mode}"\n SENUM = {b(senum)}\n WEAK = "{weak}"\n'
+                    f' RESTRICT = {b(restrict)}\nINVARIANT HonestCorrect\nINVARIANT PassImpliesCorrect\nINVARIANT CheatDetected\n'
+                    'INVARIANT TableSound\nINVARIANT KeySecrecy\nINVARIANT AbortLeakExact\nCHECK_DEADLOCK FALSE\n')
+        return vlib.run_tlc("Wrk17Pre", cp, wd, workers=8, timeout=3000)
+
+    for (n, c, mode, senum, restrict) in plans[which]:
+        r = mc(n, c, mode, senum, restrict)
+        if not r["ok"]:
+            raise vlib.ToolError(f"Wrk17Pre reports an error for N={n} C={c} {mode}:\n" + vlib.strip_tlc(r["out"])[-2000:])
+        states += r["distinct"]
+        runs.append({"config": f"N={n},C={c},{mode}" + (",restricted" if restrict else ""), "distinct": r["distinct"]})
+        for line in r["out"].splitlines():
+            if line.startswith('"TABLE '):
+                table = json.loads(json.loads(line)[len("TABLE "):])
+    neg = 0
+    for (mode, weak, inv) in (("laand", "no_xor_check", "PassImpliesCorrect"), ("beaver", "no_dvalue_mac", "PassImpliesCorrect"),
+                              ("beaver", "no_beaver_mac", "CheatDetected")):
+        r = mc(2, 1, mode, False, True, weak=weak)
+        neg += 1
+        if r["ok"] or f"{inv} is violated" not in r["out"]:
+            raise vlib.ToolError(f"negative control failed: Wrk17Pre with {weak} does not violate {inv}")
+    compared = mismatched = 0
+    if jobs is not None and table is not None:
+        res = {}
+        cur = None
+        for r in vlib.read_ndjson(out):
+            if r["ev"] == "cfg":
+                cur = r["run"]
+                res[cur] = {}
+            elif r["ev"] == "res":
+                res[cur][r["p"]] = r
+        for j in jobs:
+            t = j["tag"]
+            kind = PRE_KIND.get(t.get("what"))
+            if t.get("fam") != "pre" or kind is None or j["id"] not in res:
+                continue
+            for vic in t.get("victims", t.get("judge", [])):
+                got = res[j["id"]].get(vic)
+                if got is None or got["kind"] != "err":
+                    continue        # a victim that does not return Err is judged by the monitor
+                compared += 1
+                # a broadcast value altered towards ONE of several recipients is an equivocation, caught by the echo round
+                # before the value is used (the model's corrupted party tells everybody the same lie)
+                equiv = (len(j["circuit"]["input_regs"]) >= 3 and t["devs"][0].get("to") != 99
+                         and kind in ("e", "hashcommit") and got["err"].endswith(".InconsistentBroadcast"))
+                if not got["err"].endswith("." + table[kind]) and "Channel" not in got["err"] and not equiv:
+                    mismatched += 1
+                    if mismatched <= 3:
+                        v.spec_drift(f"Wrk17Pre predicts {table[kind]} for '{t['what']}', the real code returned {got['err']} "
+                                     f"(run {j['id']})")
+    return {"symbolic_preprocessing_model": {"states": states, "configs": runs, "negative_controls_failed_as_required": neg,
+                                             "replayed_outcomes_compared_with_model": compared,
+                                             "mismatches": f"{mismatched} mismatches"}}, states
 
 
 def c04_order(v, tier, wd, rng):
